@@ -46,30 +46,35 @@ Theorem C12_details_roundtrip : forall lc x dd, det_ok lc x = true -> det_to_dic
 Proof. exact details_roundtrip. Qed.
 Print Assumptions C12_details_roundtrip.
 
-(* a set of delegations encodes, and decodes to the same Delegations: same ids in the same order, same
-   formats, pool names and details.
-   FULL STATEMENT (false, see the two _refuted theorems): the same for every Delegations the API builds.
-   ds_wf excludes exactly: a PoolDefinition whose pool is named SINGLE_POOL_NAME, a SinglePool delegation that was
-   given a pool name, and delegations without (non-empty) details, which to_json refuses (AssertionError). *)
-Theorem C12_delegations_roundtrip_partial : forall lc ds, ds_wf lc ds = true ->
+(* a well-formed set of delegations encodes, and decodes to the same Delegations: same ids in the same order,
+   same formats, pool names and details *)
+Theorem C12_delegations_roundtrip_wf : forall lc ds, ds_wf lc ds = true ->
   exists doc, to_json ds = Ok doc /\ map fst doc = map d_id (ds_items ds) /\
               from_json lc (ds_type ds) doc = Ok ds.
 Proof. exact delegations_roundtrip. Qed.
-Print Assumptions C12_delegations_roundtrip_partial.
+Print Assumptions C12_delegations_roundtrip_wf.
 
-Theorem C12_roundtrip_reserved_pool_name_refuted :
-  exists ds doc ds', api_build FDef (Some single_pool_name) = Ok ds /\ to_json ds = Ok doc /\
-                     from_json accept_all TCap doc = Ok ds' /\ ds' <> ds /\
-                     map d_fmt (ds_items ds) = [FDef] /\ map d_fmt (ds_items ds') = [FSingle].
-Proof. exact roundtrip_reserved_pool_name_refuted. Qed.
-Print Assumptions C12_roundtrip_reserved_pool_name_refuted.
+(* FULL STRENGTH: whatever the API built -- ds_inv and d_inv are the invariants C12_container_invariant /
+   C12_delegation_invariant / C12_from_json_invariant establish for EVERY sequence of calls -- with details objects
+   the constructor built (C12_constructor_builds_ok): if to_json encodes it (it refuses, loudly, only
+   delegations without non-empty details), from_json gives the same Delegations back *)
+Theorem C12_delegations_roundtrip : forall lc ds doc,
+  ds_inv ds -> Forall d_inv (ds_items ds) ->
+  Forall (fun d => forall x, d_details d = Some x -> det_ok lc x = true) (ds_items ds) ->
+  to_json ds = Ok doc ->
+  map fst doc = map d_id (ds_items ds) /\ from_json lc (ds_type ds) doc = Ok ds.
+Proof. exact api_roundtrip. Qed.
+Print Assumptions C12_delegations_roundtrip.
 
-Theorem C12_roundtrip_single_pool_name_refuted :
-  exists ds doc ds', api_build FSingle (Some (S"p1")) = Ok ds /\ to_json ds = Ok doc /\
-                     from_json accept_all TCap doc = Ok ds' /\ ds' <> ds /\
-                     map d_pool (ds_items ds) = [Some (S"p1")] /\ map d_pool (ds_items ds') = [None].
-Proof. exact roundtrip_single_pool_name_refuted. Qed.
-Print Assumptions C12_roundtrip_single_pool_name_refuted.
+Theorem C12_constructor_builds_ok : forall lc ty dd x, obj_of_dict lc ty dd = Ok x -> det_ok lc x = true.
+Proof. exact constructor_builds_ok. Qed.
+Print Assumptions C12_constructor_builds_ok.
+
+(* the constructor: a single-pool delegation keeps no pool name, a definition cannot take the reserved name *)
+Theorem C12_constructor_shape : forall ty id fmt pool d0, new_deleg ty id fmt pool = Ok d0 ->
+  d_inv d0 /\ d_type d0 = ty /\ d_id d0 = id /\ d_fmt d0 = fmt /\ d_details d0 = None.
+Proof. exact new_deleg_inv. Qed.
+Print Assumptions C12_constructor_shape.
 
 (* ------------------------------------------------------------------------------------------------ *)
 (* rejection rules, for all arguments                                                                *)
@@ -113,8 +118,8 @@ Proof. exact add_accepts. Qed.
 Print Assumptions C12_add_accepts.
 
 (* invariants under ANY sequence of calls (failed calls leave the object as it was): the ids of a container
-   are distinct and all its delegations are of its type; a reference never carries details and details are
-   always of the delegation's type *)
+   are distinct and all its delegations are of its type; a reference never carries details, details are
+   always of the delegation's type, the pool name is the one the constructor leaves (ctor_shape) *)
 Theorem C12_container_invariant : forall ty ops, ds_inv (fold_left add_try ops (mkDs ty [])).
 Proof. exact container_invariant. Qed.
 Print Assumptions C12_container_invariant.
@@ -130,35 +135,38 @@ Theorem C12_from_json_invariant : forall lc ty doc ds, from_json lc ty doc = Ok 
 Proof. exact from_json_inv. Qed.
 Print Assumptions C12_from_json_invariant.
 
-(* FULL STATEMENT (false): from_json rejects every document that mixes label and capacity content or puts
-   details on a reference.  What holds: a document is accepted only if every entry is acceptable on its own,
-   and an entry is refused when it has no pool key, when it is a definition without this type's details, or
-   when the constructor refuses the details.  Foreign content next to acceptable content is silently dropped
-   (the two _refuted theorems below). *)
-Theorem C12_from_json_rejects_ill_formed_partial : forall lc ty,
+(* the decoder rejects mixed content and details on a reference, ALWAYS: entry by entry ... *)
+Theorem C12_from_json_rejects_details_on_ref : forall lc ty id j, j_pool_id j = None ->
+  (j_caps j <> None \/ j_labs j <> None) -> entry_of_json lc ty id j = Err EDelegation.
+Proof. exact entry_details_on_ref. Qed.
+Print Assumptions C12_from_json_rejects_details_on_ref.
+
+Theorem C12_from_json_rejects_mixed : forall lc ty id j p, j_pool_id j = Some p ->
+  (match ty with TCap => j_labs j | TLab => j_caps j end) <> None -> entry_of_json lc ty id j = Err EDelegation.
+Proof. exact entry_mixed. Qed.
+Print Assumptions C12_from_json_rejects_mixed.
+
+(* ... and for whole documents: one entry that is not of the three shapes of the format (definition /
+   single-pool entry with this type's content only, bare reference) and the document is refused *)
+Theorem C12_from_json_rejects_unclean : forall lc ty doc,
+  (exists k j, In (k, j) doc /\ entry_clean ty j = false) -> exists e, from_json lc ty doc = Err e.
+Proof. exact from_json_rejects_unclean. Qed.
+Print Assumptions C12_from_json_rejects_unclean.
+
+(* the remaining refusals, by class: no pool key, definition without this type's details, details the
+   constructor refuses; and every entry of an accepted document is clean and acceptable on its own *)
+Theorem C12_from_json_rejects_ill_formed : forall lc ty,
   (forall doc ds, from_json lc ty doc = Ok ds ->
-                  forall k j, In (k, j) doc -> exists d, entry_of_json lc ty k j = Ok d) /\
+                  forall k j, In (k, j) doc -> entry_clean ty j = true /\ exists d, entry_of_json lc ty k j = Ok d) /\
   (forall id j, j_pool_id j = None -> j_pool j = None -> entry_of_json lc ty id j = Err EDelegation) /\
-  (forall id j p, j_pool_id j = Some p -> (match ty with TCap => j_caps j | TLab => j_labs j end) = None ->
+  (forall id j p, j_pool_id j = Some p -> (match ty with TCap => j_labs j | TLab => j_caps j end) = None ->
+                  (match ty with TCap => j_caps j | TLab => j_labs j end) = None ->
                   entry_of_json lc ty id j = Err EKey) /\
-  (forall id j p dd e, j_pool_id j = Some p -> (match ty with TCap => j_caps j | TLab => j_labs j end) = Some dd ->
+  (forall id j p dd e, j_pool_id j = Some p -> (match ty with TCap => j_labs j | TLab => j_caps j end) = None ->
+                       (match ty with TCap => j_caps j | TLab => j_labs j end) = Some dd ->
                        first_error lc ty dd = Some e -> entry_of_json lc ty id j = Err e).
 Proof. exact from_json_rejects_ill_formed. Qed.
-Print Assumptions C12_from_json_rejects_ill_formed_partial.
-
-Theorem C12_from_json_rejects_details_on_ref_refuted :
-  exists doc ds, doc = [(S"d1", mkJ None (Some (S"p1")) (Some [(S"cpu", DInt 1)]) None)] /\
-                 from_json accept_all TCap doc = Ok ds /\
-                 map d_fmt (ds_items ds) = [FRef] /\ map d_details (ds_items ds) = [None].
-Proof. exact from_json_rejects_details_on_ref_refuted. Qed.
-Print Assumptions C12_from_json_rejects_details_on_ref_refuted.
-
-Theorem C12_from_json_rejects_mixed_refuted :
-  exists doc ds, doc = [(S"d1", mkJ (Some (S"p1")) None (Some [(S"cpu", DInt 1)]) (Some [(S"vlan", DStr (S"3"))]))] /\
-                 from_json accept_all TCap doc = Ok ds /\
-                 map d_fmt (ds_items ds) = [FDef] /\ map d_details (ds_items ds) = [Some cap1].
-Proof. exact from_json_rejects_mixed_refuted. Qed.
-Print Assumptions C12_from_json_rejects_mixed_refuted.
+Print Assumptions C12_from_json_rejects_ill_formed.
 
 (* ------------------------------------------------------------------------------------------------ *)
 (* pools -> per-node delegations -> pools                                                            *)
@@ -195,6 +203,13 @@ Theorem C12_generate_rejects_foreign_details : forall ty did p x, p_details p = 
   pool_events ty did p = Err EDelegation.
 Proof. exact pool_events_foreign. Qed.
 Print Assumptions C12_generate_rejects_foreign_details.
+
+(* a pool named SINGLE_POOL_NAME cannot be written as a definition: generate refuses it (DelegationException from
+   the Delegation constructor); pool_ok therefore asks for another name *)
+Theorem C12_generate_rejects_reserved_pool_name : forall ty did p, p_id p = single_pool_name ->
+  pool_events ty did p = Err EDelegation.
+Proof. exact pool_events_reserved. Qed.
+Print Assumptions C12_generate_rejects_reserved_pool_name.
 
 (* the identity: pools -> index -> per-node delegations -> pools gives the same registry (same pools, each
    with the same type, id, delegation id, defining node, reference nodes and details) *)
@@ -235,10 +250,16 @@ Print Assumptions C12_annotate_readback.
 
 Example C12_nonvacuous_roundtrip :
   ds_wf accept_all ex_ds = true /\ det_ok accept_all ex_caps = true /\ det_nonempty ex_caps = true /\
-  (exists doc, to_json ex_ds = Ok doc /\ List.length doc = 3%nat /\ from_json accept_all TLab doc = Ok ex_ds).
+  (exists doc, to_json ex_ds = Ok doc /\ List.length doc = 3%nat /\ from_json accept_all TLab doc = Ok ex_ds) /\
+  (* the same three delegations as the API builds them (the set_details on the reference is refused) *)
+  ex_api_items = ds_items ex_ds /\
+  new_deleg TLab (S"del2") FDef (Some (S"pool1")) = Ok (mkD TLab (S"del2") FDef (Some (S"pool1")) None) /\
+  new_deleg TLab (S"del2") FDef (Some single_pool_name) = Err EDelegation /\
+  new_deleg TLab (S"del1") FSingle (Some (S"p")) = Ok (mkD TLab (S"del1") FSingle None None).
 Proof.
   split; [vm_compute; reflexivity|]. split; [vm_compute; reflexivity|]. split; [vm_compute; reflexivity|].
-  eexists. split; [vm_compute; reflexivity|]. split; vm_compute; reflexivity.
+  split; [eexists; split; [vm_compute; reflexivity|]; split; vm_compute; reflexivity|].
+  repeat split; vm_compute; reflexivity.
 Qed.
 
 Example C12_nonvacuous_regroup :
